@@ -443,18 +443,27 @@ class History(object):
         E = self.E
         folder = self.opts["folder"]
         E.call("close", self.t.close, _allowed=())
+        rules = self.current_rules() if self.opts.get("overwrite_keeps_rules") else {}
+        anchors = [(lru, rn, self.ref.known.get(lru)) for lru, rn in self.ref.rules.items()] if rules else []
         ok, t = E.call("overwrite", lambda: E.Traph(folder=folder, overwrite=True, default_webentity_creation_rule=self.default_pattern(),
-                                                     webentity_creation_rules={}), _allowed=())
+                                                     webentity_creation_rules=rules), _allowed=())
         self.t = t
         d = self.ref.default_rule
         fresh = Ref()
         fresh.default_rule = d
         self.ref.__dict__.update(fresh.__dict__)
+        for lru, rn, pl in anchors:
+            self.ref.name(pl)
+            self.ref.rules.set(lru, rn)
         return {"new_pages": 0}
 
     def op_clear(self, n):
         E = self.E
-        ok, _ = E.call("clear", self.t.clear, self.default_pattern(), {})
+        if self.opts.get("clear_noargs") and E.flag(n + ".noargs"):
+            E.reach("variant:clear-noargs")
+            ok, _ = E.call("clear", self.t.clear)
+        else:
+            ok, _ = E.call("clear", self.t.clear, self.default_pattern(), {})
         E.check(ok, "clear:refused")
         d = self.ref.default_rule
         fresh = Ref()
